@@ -109,6 +109,22 @@ def int_train_lists(draw, min_trains=2, max_trains=2, max_spikes=8, max_len=None
     trains = []
     for _ in range(nt):
         trains.append(draw(train_on_grid(n, pool, trains, max_spikes, related)))
+    if draw(st.sampled_from([False] * 6 + [True])):
+        # fine mode: the same structure on a 2^14 times finer grid, interior
+        # spikes moved by a few fine units - almost (but not exactly) shared
+        # spike times and spikes almost (but not exactly) on an edge
+        F = 1 << 14
+        fine = []
+        for tr in trains:
+            out = []
+            for s_ in tr:
+                d = draw(st.sampled_from([0, 0, 1, -1, 2, 0]))
+                v = s_ * F + d
+                if v < 0 or v > n * F:
+                    v = s_ * F
+                out.append(v)
+            fine.append(out)
+        return dict(q=q * F, k0=k0 * F, n=n * F, trains=fine, fine=True)
     return dict(q=q, k0=k0, n=n, trains=trains)
 
 
@@ -127,13 +143,18 @@ def sizes(tier):
 # settings drawn *from the case* so that ties are hit
 # ---------------------------------------------------------------------------
 @st.composite
-def mrts_for(draw, g, allow_none=True):
-    """MRTS value in time units (float, dyadic) or None (= keyword omitted)"""
+def mrts_for(draw, g, allow_none=True, allow_auto=False):
+    """MRTS value in time units (float, dyadic), None (= keyword omitted) or
+    the string 'auto'"""
     q, n = g["q"], g["n"]
     opts = ["zero", "grid", "isi", "double_isi", "big", "quarter"]
     if allow_none:
         opts.append("none")
+    if allow_auto:
+        opts += ["auto", "auto"]
     kind = draw(st.sampled_from(opts))
+    if kind == "auto":
+        return "auto"
     isis = []
     for tr in g["trains"]:
         isis += [b - a for a, b in zip(tr, tr[1:])]
@@ -279,7 +300,9 @@ def float_train_lists(draw, min_trains=2, max_trains=2, max_spikes=8):
         k = draw(st.integers(0, max_spikes))
         tr = set()
         for _ in range(k):
-            kind = draw(st.sampled_from(["f", "f", "f", "copy", "next", "s", "e"]))
+            kind = draw(st.sampled_from(["f", "f", "f", "copy", "next", "s", "e", "near"]))
+            if kind == "f" or (kind in ("copy", "next") and not allt):
+                pass
             if kind == "f" or (kind in ("copy", "next") and not allt):
                 v = t0 + ln * (draw(st.integers(0, 1 << 30)) / float(1 << 30))
             elif kind == "copy":
@@ -287,6 +310,10 @@ def float_train_lists(draw, min_trains=2, max_trains=2, max_spikes=8):
             elif kind == "next":
                 v = draw(st.sampled_from(allt))
                 v = math.nextafter(v, t1) if abs(v) >= 1e-3 else v + ln / (1 << 30)
+            elif kind == "near":
+                # within ~1e-7 (relative) of an existing time or of an edge
+                v = draw(st.sampled_from(allt + [t0, t1]))
+                v = v + draw(st.sampled_from([1.0, -1.0])) * max(abs(v), ln) * 2.0 ** -23
             elif kind == "s":
                 v = t0
             else:
